@@ -148,8 +148,9 @@ func stateVec(r *goja.Runtime) string {
 		}
 		return 0
 	}
-	return fmt.Sprintf("%d,%d,%d,%d,%d,%d,%d,%d,%d,%d,%d", s.Sp, s.Sb, b(s.PrgNil), b(s.StashGlobal), b(s.PrivEnvNil),
-		s.CallStackLen, s.TryStackLen, s.IterStackLen, s.RefStackLen, s.JobQueueLen, b(s.Interrupted))
+	return fmt.Sprintf("%d,%d,%d,%d,%d,%d,%d,%d,%d,%d,%d,%d,%d,%d,%d", s.Sp, s.Sb, b(s.PrgNil), b(s.StashGlobal), b(s.PrivEnvNil),
+		s.CallStackLen, s.TryStackLen, s.IterStackLen, s.RefStackLen, s.JobQueueLen, b(s.Interrupted),
+		s.PrivEnvDepth, b(s.CurAsyncRunnerNil), b(s.NewTargetNil), s.Args)
 }
 
 func classify(err interface{}) string {
@@ -234,6 +235,13 @@ function PB(){ var log=[];
   Promise.resolve(6).then(function(v){ globalThis.__job2 = v });
   return log.join("|") }
 function PC(){ this.s = new Error("pc").stack }
+async function PAI(){ await null; globalThis.__astack = new Error("pa").stack; }
+async function PAO(){ await PAI(); globalThis.__astack2 = new Error("pao").stack; }
+function PPRIV(){ var out=[];
+  try { out.push("resolved:" + eval("#p in ({})")) } catch (e) { out.push(e.name) }
+  class A { #a = 7; m(){ try { class B { #b = 1; [null.x](){} } } catch (e) { out.push("c") } return this.#a } }
+  try { out.push(new A().m()) } catch (e) { out.push("E:" + e.name) }
+  return out.join(",") }
 `
 
 const probeScript = `(function(){ var log=[];
@@ -279,6 +287,19 @@ func behaviour(r *goja.Runtime) string {
 		}
 		v, err = r.RunString("String(globalThis.__job2)")
 		add("job2", v, err)
+		// stack-trace text from an async function resumed by the job queue (two-level await chain), and
+		// private-name resolution (a leaked vm.privEnv makes `#p in …` resolve / breaks this.#a)
+		if pa, ok := goja.AssertFunction(r.Get("PAO")); ok {
+			_, err := pa(goja.Undefined())
+			add("async", r.Get("__astack"), err)
+			add("async2", r.Get("__astack2"), nil)
+		}
+		v, err = r.RunString("PPRIV()")
+		add("priv", v, err)
+		if pp, ok := goja.AssertFunction(r.Get("PPRIV")); ok {
+			v, err := pp(goja.Undefined())
+			add("privcall", v, err)
+		}
 		var got goja.Value
 		ex := r.Try(func() { got = r.Get("PB").ToObject(r).Get("name") })
 		var exi interface{}
